@@ -32,7 +32,7 @@ class C09(ScanCheck):
         q = tier == "quick"
         cases = []
         self.exp = {}
-        wallets = [(sc.rscalar(rng), sc.rscalar(rng)) for _ in range(3 if q else 12)] + [(1, 1), (L - 1, L - 1)]
+        wallets = [(sc.rscalar(rng), sc.rscalar(rng)) for _ in range(3 if q else 12)] + [(1, 1), (L - 1, L - 1), (sc.rscalar(rng), 0), (0, sc.rscalar(rng)), (0, 0)]
         for (v, s) in wallets:
             Spt = sc.gmul(s)
             for rep in range(2 if q else 6):
